@@ -9,6 +9,9 @@ verify are kept).  For every module: print in CUSTOM form -> parse in a fresh co
 A small hand-written supplement (mc/extra_corpus/*.mlir, generic form) adds shapes the in-tree tests never contain
 (values and results of function type in func.func / func.call / scf / cf / casts, empty and nested tuples).
 Evidence lists the operations covered (an op no case reaches is not claimed).
+A second family (props/c05_formats.py) generates synthetic declarative-format operation definitions (optional groups with
+every anchor kind, else-branches, nested groups, variadic operands, default-valued properties) and round-trips every
+verified instance of each, so the format ENGINE is exercised on shapes no in-tree op uses.
 """
 from __future__ import annotations
 
@@ -19,6 +22,7 @@ from typing import Any
 
 from mc import corpus
 from mc.canon import canon, first_op_diff
+from props import c05_formats
 from mc.pool import pmap
 from mc.stats import Stats
 
@@ -184,13 +188,23 @@ def run(ctx):
     ctx.stats.extra["ops_covered"] = len(cov)
     ctx.stats.extra["ops_covered_per_dialect"] = dict(sorted(by_dialect.items()))
     ctx.bounds = {"corpus": "all chunks of tests/**/*.mlir", "neighbourhood_on_modules_with_at_most_ops": max_ops}
+    # family 2: generated declarative-format operation definitions (merges its own Stats)
+    ctx.bounds.update(c05_formats.run_family(ctx.merge, ctx.quick, ctx.seed))
     ctx.rule = ("every corpus chunk that parses+verifies, and every single drop of an optional/default-valued property or of a discardable "
-                "attribute that still verifies; states = modules round-tripped; non-trivial = verified corpus module; coverage per op reported")
-    ctx.assumptions = ["mc/canon.py with default-property / inherent-attribute normalisation", "ops the corpus never instantiates are not claimed"]
+                "attribute that still verifies; states = modules round-tripped; non-trivial = verified corpus module; coverage per op reported. "
+                "Synthetic formats: every definition of the segment grammar (1..2 segments x type modes) the format compiler accepts, every "
+                "verified instance the format can denote (presence subsets, variadic lengths 0..2, property values incl. the default, with/without "
+                "a discardable attribute); states += instances round-tripped; non-trivial += instances where an optional group is absent or a "
+                "default-valued entry equals its default")
+    ctx.assumptions = ["mc/canon.py with default-property / inherent-attribute normalisation", "ops the corpus never instantiates are not claimed",
+                       "synthetic formats: an instance with a non-empty variable in the branch of an optional group that is not taken has no custom "
+                       "form by design and is outside the space (decided on the generator's own AST)"]
 
 
 def replay(rep) -> bool:
     w = rep["witness"]
+    if "synthetic" in w:
+        return c05_formats.replay_synthetic(rep)
     st = Stats()
     text = corpus.chunks_of(w["file"])[w["chunk"]]
     m = corpus.parse(text)
